@@ -20,7 +20,7 @@ def run(ctx):
                     timeout=T, workers=4, coverage=ctx.thorough, name="MCTxOrder")
     ctx.model_check("pool/MCTxOrder", "pool/MCTxOrderHeap", timeout=T, workers=4, name="MCTxOrderHeap")
     # R (exhaustive): complete graph of a smaller domain, every path replayed
-    res = ctx.model_check("pool/MCTxOrder", "pool/MCTxOrderEdges", tags=("EDGE",), timeout=T, workers=4, name="MCTxOrderEdges")
+    res = ctx.model_check("pool/MCTxOrder", "pool/MCTxOrderEdges" if not ctx.thorough else "pool/MCTxOrderEdgesThorough", tags=("EDGE",), timeout=T, workers=4, name="MCTxOrderEdges")
     edges = parse_edges(res)
     if not edges:
         raise InfraError("no edges emitted")
